@@ -3,12 +3,15 @@ package main
 import (
 	"encoding/json"
 	"fmt"
+	"go/constant"
 	"os"
 	"path/filepath"
 	"sort"
 	"strconv"
 	"strings"
 	"time"
+
+	"golang.org/x/tools/go/ssa"
 )
 
 type fsState struct{} // placeholder, see fs_stubs.go
@@ -155,6 +158,16 @@ func cmdCheck(args []string) int {
 			hs.Inconclusive = append(hs.Inconclusive, "VACUOUS: no path of this harness ran to completion")
 			fmt.Printf("INCONCLUSIVE property=%s harness=%s VACUOUS no completed path\n", prop, r.Spec.Name)
 		}
+		// vacuity guard: assertion ids that occur as constants in the harness' call closure but were never reached
+		for _, id := range declaredAsserts(ex.harness) {
+			if _, ok := ex.Asserts[id]; !ok {
+				hs.NeverReached = append(hs.NeverReached, id)
+			}
+		}
+		sort.Strings(hs.NeverReached)
+		if len(hs.NeverReached) > 0 {
+			fmt.Printf("NOTE property=%s harness=%s assertions never reached in this tier: %s\n", prop, r.Spec.Name, strings.Join(hs.NeverReached, ", "))
+		}
 		for f := range ex.Funcs {
 			funcs[f] = true
 		}
@@ -300,6 +313,7 @@ type HarnessEvidence struct {
 	EngineMismatches  int                   `json:"engine_mismatches"`
 	WitnessMismatches int                   `json:"witness_mismatches"`
 	Violations        []string              `json:"violations,omitempty"`
+	NeverReached      []string              `json:"assertions_never_reached,omitempty"`
 	Error             string                `json:"error,omitempty"`
 }
 
@@ -345,3 +359,50 @@ func writeEvidence(ev *Evidence) {
 }
 
 var _ = strings.TrimSpace
+
+// declaredAsserts walks the static call closure of the harness inside the harness files (zz_verif_*) and
+// collects the constant assertion ids passed to verifAssert.
+func declaredAsserts(h *ssa.Function) []string {
+	seen := map[*ssa.Function]bool{}
+	ids := map[string]bool{}
+	var walk func(f *ssa.Function)
+	walk = func(f *ssa.Function) {
+		if f == nil || seen[f] || f.Blocks == nil {
+			return
+		}
+		seen[f] = true
+		pos := f.Prog.Fset.Position(f.Pos())
+		if f != h && !strings.Contains(pos.Filename, "zz_verif_") {
+			return
+		}
+		for _, b := range f.Blocks {
+			for _, ins := range b.Instrs {
+				switch c := ins.(type) {
+				case *ssa.Call:
+					if callee := c.Call.StaticCallee(); callee != nil {
+						if callee.Name() == "verifAssert" && len(c.Call.Args) == 2 {
+							if k, ok := c.Call.Args[1].(*ssa.Const); ok && k.Value != nil {
+								ids[constant.StringVal(k.Value)] = true
+							}
+						}
+						walk(callee)
+					}
+				case *ssa.MakeClosure:
+					if fn, ok := c.Fn.(*ssa.Function); ok {
+						walk(fn)
+					}
+				}
+			}
+		}
+		for _, an := range f.AnonFuncs {
+			walk(an)
+		}
+	}
+	walk(h)
+	var out []string
+	for id := range ids {
+		out = append(out, id)
+	}
+	sort.Strings(out)
+	return out
+}
